@@ -9,6 +9,14 @@ CHECKS = {
          "Complete enumeration of the stated finite domain (all 3,652,059 day numbers, their out-of-range neighbours, the whole (y,m,d) grid) against a calendar built by day-by-day stepping; this decides the property for every input it quantifies over, short of a bug shared by the 60-line reference walk.",
          "Trusted: the reference walk (month lengths + leap rule + Thursday anchor as written in the statement), the Rust toolchain. Both tiers are exhaustive.",
          "4/C01"),
+ "C07": ("exhaustive enumeration + boundary-pool pairs vs. i128 div/rem model (model-based differential)",
+         "Every date x critical times of day, every second of the day, every microsecond at three seconds, the full (h,m,s,us) validity grid and neighbour/random ordering pairs are compared with integer arithmetic n*86400e6+t; complete for the date and second axes, sampled (boundary pool + seeded) for arbitrary instants.",
+         "Trusted: walked calendar, i128 arithmetic, std DefaultHasher for hash consistency. Arbitrary (date, microsecond) pairs away from the critical times are sampled, not enumerated.",
+         "4/C07"),
+ "C08": ("pool cross-product sweeps + proptest with shrinking vs. exact i128 / dyadic-rational arithmetic",
+         "Each of the 37 linear operations is crossed with boundary+seeded operand pools and proptest-generated 64-bit operands and judged by the biconditional 'Ok(exact) <=> exact result in range'; add_days/sub_days are judged against the exact set of admissible microsecond offsets computed without floating point. Sampled over 64-bit operands; boundary regions are covered by construction.",
+         "Trusted: i128 arithmetic and the dyadic decomposition of doubles (unit-tested). Error kinds are not constrained by the statement and are not checked.",
+         "4/C08"),
 }
 
 ALL = ["C%02d" % i for i in range(1, 20)]
